@@ -14,7 +14,7 @@ def random_config(r, op, n_choices, N_choices, allow_outliers=True):
         op=op, n=n, N=N,
         wiring=r.choice(["run", "lib"]),
         proposal=r.choice(PROPOSALS),
-        samples=r.choice([1, 1, 2]),
+        samples=r.choice([1, 1, 2, 3]),
         grid=r.choice([3, 4, 5, 7]),
         style=r.choice(["gauss", "gauss", "peaked", "flat", "binom"]),
         data_seed=r.randrange(1 << 30),
